@@ -1,1 +1,88 @@
-From V.Sys Require Import Preflight PreflightProofs.
+(* C16 - Padding templates are accepted only with the complete dummy sentinel.
+
+   Model: Sys/Preflight.v ([leaf_template_check] after verify_dummy_leaf_template,
+   [private_batch_template_check] after verify_dummy_private_batch_template; both parse with the C24 parsers
+   PublicCircuitInputs / PrivateBatchPublicInputs ::try_from_u64_slice, check the sentinel, then verify).
+   Proofs: Sys/PreflightProofs.v.  That every constructor / loader / build step calls the validator before using the
+   template is conformance: harness/src/bin/provers.rs drives every entry point with deviating templates (fids 1601/1602).
+
+   Vocabulary (ParsersProofs.v): at_ l i = nth i l 0; wf_leaf / wf_priv n = the well-formed layouts of C24
+   (length 21 resp. 8 + 21 n, u32 scalars, canonical digest limbs, num_exit_slots = 2 n). *)
+From V.Base Require Import Common.
+From V.Generated Require Import Constants.
+From V.Sys Require Import Parsers ParsersProofs Preflight PreflightProofs.
+
+Local Open Scope Z_scope.
+
+(* ---------------------------------------------------------------- layout constants of the property text, pinned to /repo *)
+Lemma C16_pin_leaf_layout :
+  [LEAF_PI_LEN; IDX_ASSET_ID; IDX_OUTPUT_AMOUNT_1; IDX_OUTPUT_AMOUNT_2; IDX_EXIT_1_START; IDX_EXIT_1_END;
+   IDX_EXIT_2_START; IDX_EXIT_2_END; IDX_BLOCK_HASH_START; IDX_BLOCK_HASH_END] = [21; 0; 1; 2; 8; 12; 12; 16; 16; 20].
+Proof. reflexivity. Qed.
+Lemma C16_pin_private_batch_layout :
+  [PR_OUT_BLOCK_HASH_OFFSET; PR_OUT_BLOCK_NUMBER_OFFSET; PR_OUT_HEADER_LEN; PR_OUT_EXIT_SLOT_LEN] = [3; 7; 8; 5].
+Proof. reflexivity. Qed.
+
+(* the inspected positions *)
+Lemma C16_spec_leaf_inspected i :
+  leaf_inspected i <-> (i <= 2)%nat (* asset id, output 1, output 2 *) \/ (8 <= i <= 19)%nat (* exit 1, exit 2, block hash *).
+Proof. reflexivity. Qed.
+Lemma C16_spec_priv_inspected n i :
+  priv_inspected n i <-> (3 <= i <= 6)%nat (* block hash *) \/ (8 <= i < 8 + 10 * n)%nat (* 2 n exit slots of [sum, account(4)] *).
+Proof. reflexivity. Qed.
+
+(* ---------------------------------------------------------------- exact acceptance *)
+Theorem C16_leaf_template_accept_iff : forall t,
+  leaf_template_check t = Ok tt <->
+  wf_leaf (c_pis t) /\ (forall i, leaf_inspected i -> at_ (c_pis t) i = 0) /\ c_ok t = true.
+Proof. exact leaf_template_ok_iff. Qed.
+
+Theorem C16_private_batch_template_accept_iff : forall t,
+  private_batch_template_check t = Ok tt <->
+  exists n, wf_priv n (c_pis t) /\ (forall i, priv_inspected n i -> at_ (c_pis t) i = 0) /\ c_ok t = true.
+Proof. exact private_batch_template_ok_iff. Qed.
+
+(* ---------------------------------------------------------------- any single failing condition rejects *)
+Theorem C16_single_deviation_rejected :
+  (forall t i, leaf_inspected i -> at_ (c_pis t) i <> 0 -> exists c, leaf_template_check t = Err c) /\
+  (forall t, c_ok t = false -> exists c, leaf_template_check t = Err c) /\
+  (forall t n i, length (c_pis t) = (8 + 21 * n)%nat -> priv_inspected n i -> at_ (c_pis t) i <> 0 ->
+     exists c, private_batch_template_check t = Err c) /\
+  (forall t, c_ok t = false -> exists c, private_batch_template_check t = Err c).
+Proof.
+  split; [exact leaf_template_single_deviation|]. split; [exact leaf_template_invalid_rejected|].
+  split; [exact private_batch_template_single_deviation|exact private_batch_template_invalid_rejected].
+Qed.
+
+(* what the batch logic relies on (C14): an accepted template is a dummy slot with the native asset *)
+Theorem C16_accepted_templates_are_dummies :
+  (forall t, leaf_template_check t = Ok tt -> dummy_sentinel (c_pis t)) /\
+  (forall t, private_batch_template_check t = Ok tt -> LeanPort.is_dummy_inner (c_pis t) = true).
+Proof. split; [exact leaf_template_sentinel|exact private_batch_template_sentinel]. Qed.
+
+(* ---------------------------------------------------------------- non-vacuity *)
+Example C16_ex_leaf :
+  let good := [0; 0; 0; 10] ++ [77; 1; 2; 3] ++ repeat 0 12 ++ [5] in
+  let set (i : nat) v l := firstn i l ++ v :: skipn (S i) l in
+  leaf_template_check (mkChild good true) = Ok tt /\
+  leaf_template_check (mkChild good false) = Err T_VERIFY /\
+  leaf_template_check (mkChild (set 0%nat 1 good) true) = Err T_ASSET /\
+  leaf_template_check (mkChild (set 1%nat 1 good) true) = Err T_OUTPUT /\
+  leaf_template_check (mkChild (set 2%nat 1 good) true) = Err T_OUTPUT /\
+  leaf_template_check (mkChild (set 11%nat 1 good) true) = Err T_EXIT /\
+  leaf_template_check (mkChild (set 15%nat 1 good) true) = Err T_EXIT /\
+  leaf_template_check (mkChild (set 19%nat 1 good) true) = Err T_BLOCK /\
+  leaf_template_check (mkChild (set 3%nat 4294967296 good) true) = Err T_PARSE /\
+  leaf_template_check (mkChild (tl good) true) = Err T_PARSE.
+Proof. vm_compute. repeat split. Qed.
+Example C16_ex_private_batch :
+  let good := [4; 0; 10] ++ [0; 0; 0; 0] ++ [0] ++ repeat 0 20 ++ [11; 12; 13; 14; 21; 22; 23; 24] ++ repeat 0 14 in
+  let set (i : nat) v l := firstn i l ++ v :: skipn (S i) l in
+  private_batch_template_check (mkChild good true) = Ok tt /\
+  private_batch_template_check (mkChild good false) = Err T_VERIFY /\
+  private_batch_template_check (mkChild (set 6%nat 1 good) true) = Err T_BLOCK /\
+  private_batch_template_check (mkChild (set 8%nat 1 good) true) = Err T_OUTPUT /\
+  private_batch_template_check (mkChild (set 9%nat 1 good) true) = Err T_EXIT /\
+  private_batch_template_check (mkChild (set 27%nat 1 good) true) = Err T_EXIT /\
+  private_batch_template_check (mkChild (set 0%nat 3 good) true) = Err T_PARSE.
+Proof. vm_compute. repeat split. Qed.
